@@ -26,7 +26,7 @@ def main():
         try:
             info = mod.generate(src) or {}
         except core.Unsupported: raise
-        except (KeyError, AttributeError, IndexError, AssertionError, TypeError, StopIteration) as ex:
+        except (KeyError, AttributeError, IndexError, AssertionError, TypeError, StopIteration, core.Z3Exception) as ex:
             # the contract could not be bound to the code as it is written now (a renamed local, a changed call shape, ...): UNDECIDED, never a violation
             tb = traceback.extract_tb(ex.__traceback__)
             where = next((f"{os.path.basename(fr.filename)}:{fr.lineno}" for fr in reversed(tb) if '/specs/' in fr.filename), f"{os.path.basename(tb[-1].filename)}:{tb[-1].lineno}")
